@@ -1,5 +1,7 @@
 import RgVerif.Lemmas.SearcherTop
 import RgVerif.Lemmas.SearcherTopFast
+import RgVerif.Lemmas.SearcherTopFastStop
+import RgVerif.Lemmas.SearcherFind
 import RgVerif.Lemmas.SearcherSpecFacts
 /-
 C03 — results follow the grep model (order, uniqueness, context windows, separators, numbering,
@@ -36,18 +38,47 @@ theorem C03_default_matcher (cfg : Config) (m : MatcherI) (inp : Bytes) (hbin : 
     (sliceByLine cfg m allCont inp).events = grepSpec cfg (lineSel cfg m) inp :=
   (sliceByLine_slow cfg m inp hbin (by simp [isLineByLineFast, h1, h2])).1
 
-/-- **C03, fast path** (no `stop_on_nonmatch`; with it the fast path hands over to the slow loop after the
-first match). `FindSpec` is the contract of `find_by_line_fast` on this input: started at a line start it
-returns the first line from there on that the pattern matches (it follows from a `LineSafe`-style matcher
-contract: no match spans the terminator, matching inside a line is context independent, the candidate
-finder has no false negatives). Under it the fast path (plain and inverted) delivers exactly the grep
-model, with the *same* selection predicate as the slow path. -/
+/-- **C03, fast path** (plain, inverted, and with `stop_on_nonmatch`, where the fast loop hands over to the
+slow loop after the first match). `FindSpec` is the contract of `find_by_line_fast` on this input: started
+at a line start it returns the first line from there on that the pattern matches (`C03_linesafe` derives it
+from the matcher contract `LineSafe`). Under it the fast path delivers exactly the grep model, with the
+*same* selection predicate as the slow path. -/
 theorem C03_fast (cfg : Config) (m : MatcherI) (inp : Bytes) (hbin : cfg.binary = .none)
-    (hfast : isLineByLineFast cfg m (Core.new cfg true) = true) (hstop : cfg.stopOnNonmatch = false)
+    (hfast : isLineByLineFast cfg m (Core.new cfg true) = true)
     (hfind : FindSpec cfg m inp (linesOf cfg m inp)) :
     (sliceByLine cfg m allCont inp).events = grepSpec cfg (lineSel cfg m) inp ∧
-      (sliceByLine cfg m allCont inp).result = .ok () :=
-  sliceByLine_fast cfg m inp hbin hfast hstop hfind
+      (sliceByLine cfg m allCont inp).result = .ok () := by
+  cases hs : cfg.stopOnNonmatch
+  · exact sliceByLine_fast cfg m inp hbin hfast hs hfind
+  · exact sliceByLine_fast_stop cfg m inp hbin hfast hs hfind
+
+/-- **C03** — for every configuration (A, B, inversion, passthru, line numbers, stop-on-nonmatch, terminator),
+every matcher and every input, whichever path `Core` takes: the sink of an uninterrupted
+`SliceByLine::run` sees exactly the grep model of the input, provided `find_by_line_fast` meets its
+contract whenever the fast path is taken. -/
+theorem C03 (cfg : Config) (m : MatcherI) (inp : Bytes) (hbin : cfg.binary = .none)
+    (hfind : isLineByLineFast cfg m (Core.new cfg true) = true → FindSpec cfg m inp (linesOf cfg m inp)) :
+    (sliceByLine cfg m allCont inp).events = grepSpec cfg (lineSel cfg m) inp ∧
+      (sliceByLine cfg m allCont inp).result = .ok () := by
+  cases hf : isLineByLineFast cfg m (Core.new cfg true)
+  · exact C03_slow cfg m inp hbin hf
+  · exact C03_fast cfg m inp hbin hf (hfind hf)
+
+/-- **C03 for a line-safe matcher**: the contract in terms of the matcher's answers
+(`Lemmas/SearcherFind.lean`; decidable per input by `lineSafeCheck`). -/
+theorem C03_linesafe (cfg : Config) (m : MatcherI) (inp : Bytes) (hbin : cfg.binary = .none)
+    (hsafe : LineSafe cfg m inp (linesOf cfg m inp)) :
+    (sliceByLine cfg m allCont inp).events = grepSpec cfg (lineSel cfg m) inp ∧
+      (sliceByLine cfg m allCont inp).result = .ok () := by
+  apply C03 cfg m inp hbin
+  intro _
+  have L : Layout cfg.lineTerm.asByte inp (linesOf cfg m inp) := layout_splitLines _ inp (lineSel cfg m)
+  have hsel : ∀ j, j < (linesOf cfg m inp).length →
+      selAt (linesOf cfg m inp) j = lineSel cfg m (bytesAt (linesOf cfg m inp) j) :=
+    selAt_of_forall (fun x hx => by
+      simp only [linesOf, List.mem_map] at hx
+      obtain ⟨l, _, rfl⟩ := hx; rfl)
+  exact findSpec_of_lineSafe L (linesOf_length cfg m inp) rfl hsel hsafe
 
 /-! ### Corollaries (the five clauses of the property)
 
